@@ -242,7 +242,7 @@ def round7(q):
 # generator
 # ------------------------------------------------------------------------------------------------
 
-def gen_leaf(rng, n, poly, allow_dups=True):
+def gen_leaf(rng, n, poly, allow_dups=True, tiny=True):
     m = rng.randint(1, 4)
     rows = []
     for _ in range(m):
@@ -256,6 +256,9 @@ def gen_leaf(rng, n, poly, allow_dups=True):
         rows[rng.randrange(m)] = [F(0)] * n
     c = [F(rng.choice([-3, -2, -1, 1, 2, 3, 4, 0]) if rng.random() < 0.85 else rng.choice([F(1, 2), F(-5, 4)]))
          for _ in range(m)]
+    if tiny and rng.random() < 0.1:
+        # a tiny but nonzero coefficient (below every tolerance used anywhere in the library): never "identically zero"
+        c[rng.randrange(m)] = rng.choice([F(1, 2 ** 30), F(-3, 2 ** 31)])
     if rng.random() < 0.12 and not (allow_dups and len({tuple(r) for r in rows}) < m):
         return {'k': 'dict', 'poly': poly, 'n': n, 'items': [[[frac_str(x) for x in r], frac_str(v)]
                                                               for r, v in {tuple(r): v for r, v in zip(rows, c)}.items()]}
@@ -477,5 +480,7 @@ def lin_spec(rng, nvars, p_const=0.3):
         return {'off': frac_str(F(rng.randint(-3, 3))), 'co': []}
     k = rng.randint(1, min(3, nvars))
     vids = sorted(rng.sample(range(nvars), k))
-    return {'off': frac_str(F(rng.choice([0, 0, 1, -2]))),
-            'co': [[v, frac_str(F(rng.choice([-2, -1, 1, 2, 3]), rng.choice([1, 1, 2])))] for v in vids]}
+    co = [[v, frac_str(F(rng.choice([-2, -1, 1, 2, 3]), rng.choice([1, 1, 2])))] for v in vids]
+    if rng.random() < 0.1:
+        co[rng.randrange(len(co))][1] = frac_str(rng.choice([F(1, 2 ** 28), F(-1, 2 ** 29)]))     # tiny, not zero
+    return {'off': frac_str(F(rng.choice([0, 0, 1, -2]))), 'co': co}
